@@ -486,13 +486,13 @@ VALUE_OBSERVERS = ('compose', 'ja3', 'hassh', 'hassh_server', 'fingerprints', 'k
                    'as_json', 'as_markdown', '_asdict')
 
 
-def check_edit_histories(acc, o, wit, names=VALUE_OBSERVERS, wide=False, sigprefix='stale_after_edit'):
+def check_edit_histories(acc, o, wit, names=VALUE_OBSERVERS, wide=False, sigprefix='stale_after_edit', purity=False):
     """For every in-place edit of o (objects.inplace_variants): a copy of o is observed with every observer, edited in
     place, and observed again; each answer must equal the answer of the same value built by construction and never
     observed before.  Returns the number of histories run."""
     nc = objects._not_constructible()
     try:
-        variants = objects.inplace_variants(o, wide)
+        variants = objects.inplace_variants(o, wide, partial=purity)
     except nc:
         return 0
     n = 0
@@ -500,7 +500,13 @@ def check_edit_histories(acc, o, wit, names=VALUE_OBSERVERS, wide=False, sigpref
         try:
             a = rebuilt()
         except nc:
-            continue
+            if not (purity and tag.endswith('!only')):
+                continue
+            # the constructor refuses the value the single assignment produces: the edited object still exists
+            try:
+                a = inplace(None)
+            except nc + (AttributeError,):
+                continue
         obs = [x for x in available_observers(a) if x in names]
         if not obs:
             continue
@@ -512,6 +518,15 @@ def check_edit_histories(acc, o, wit, names=VALUE_OBSERVERS, wide=False, sigpref
             b = inplace(warm)
         except nc + (AttributeError,):
             continue
+        # a state that only an in-place edit reaches (the constructor would have completed or refused it) is still a
+        # state of the object: every observer, successful or not, must leave it as it found it
+        if purity:
+            try:
+                check_observers(acc, copy.deepcopy(b), type(o).__name__ + ':edited',
+                                dict(wit, tag=tag, after='in-place edit'), 1)
+                acc.count('edited_states_observed')
+            except nc:
+                pass
         # the two histories must have reached the same *value*: equal dumps, or - because the dump also shows
         # private attributes in which an implementation may cache answers - equal constructor-argument values
         try:
@@ -545,7 +560,7 @@ def _edit_worker(args):
     if idx >= len(objs):
         return acc.result()
     with core.watchdog(1500):
-        n = check_edit_histories(acc, objs[idx], {'part': 'd', 'cls': qn, 'seed': idx}, wide=wide)
+        n = check_edit_histories(acc, objs[idx], {'part': 'd', 'cls': qn, 'seed': idx}, wide=wide, purity=True)
     acc.count('edit_histories', n)
     acc.state(core.h64('edit', qn, idx))
     return acc.result()
